@@ -149,9 +149,27 @@ REAL = [("Z1", dict(n=4)), ("Z2", dict(n=4)), ("Z3", dict(n=4)), ("Z4", dict(n=3
         ("Z3", dict(n=4, mx=3), dict(pre=["a.out_3", "b.out_2"])), ("Z2", dict(n=3), dict(pre=["a.out_2", "a.out_3"]))]
 PRE_CLOSED = [("Z1", dict(n=3, mx=2), dict(pre=["a.out_2_v"])), ("Z3", dict(n=2), dict(pre=["a.out_2"]))]
 
+def fanin_close_stress(chk, tier):
+    """one in-port with 25 upstreams (24 of them empty sources) that close at practically the same instant, debug logging on:
+    the last-closer decision of InPort.CloseConnection must be taken once (closeLock) - repeated many times"""
+    procs = [zoo.src("s0", ["1"])] + [zoo.src("e%d" % i, []) for i in range(24)] + [zoo.cmd("m", ["in"])]
+    edges = [zoo.E("s0.out", "m.in")] + [zoo.E("e%d.out" % i, "m.in") for i in range(24)]
+    inst = dict(name="FANIN", max=2, bufsize=2, procs=procs, edges=edges, debuglog=True)
+    def one(k):
+        return fc.real_runs(inst, [dict(env={}, bufsize=2, timeout=20)])[0]
+    n = 600 if tier == "thorough" else 240
+    bad = [rr for rr in pmap(one, range(n), workers=12) if rr.panic or rr.rc != 0 or not rr.completed or "o/m.out_1.txt" not in rr.snapshot]
+    chk.evaluations += n
+    if bad:
+        rr = bad[0]
+        chk.violation("fan-in of 25 upstreams closing together: %d of %d runs failed (%s): the item was not processed exactly once"
+                      % (len(bad), n, "panic: " + rr.stderr[-200:].replace("\n", " | ") if rr.panic else "rc=%s" % rr.rc), dict(instance=norm_inst(inst), stderr=rr.stderr[-1500:]))
+    else:
+        chk.nontrivial.add("fanin-close-stress:%d" % n)
+
 @register("C04")
 def check_C04(tier):
-    return run_flow_check("C04", tier, {"C04"},
+    return run_flow_check("C04", tier, {"C04"}, post=lambda chk: fanin_close_stress(chk, tier),
         closed_cases=(THOROUGH_CLOSED if tier == "thorough" else QUICK_CLOSED) + PRE_CLOSED,
         real_cases=REAL, gen=40 if tier == "thorough" else 10, nvar=8 if tier == "thorough" else 4,
         weak_cases=[("Z2", dict(n=1), "SendFirstRemoteOnly", "C04_AtReturn")],
